@@ -70,18 +70,20 @@ void harness(void)
 	sqfs_u16 flags0;
 	sqfs_u32 count0;
 	sqfs_u64 start0;
-	size_t used;
+	size_t used, cap;
 	int ret;
 
 	g_wt_calls = 0;
 	g_wt_ret = 0;
 	used = verif_nd_size("used");
 	VERIF_ASSUME(used <= ((size_t)1 << 28));
-	frags = malloc(used * sizeof(*frags));
+	cap = verif_nd_size("capacity");
+	VERIF_ASSUME(cap >= used && cap <= ((size_t)1 << 29));
+	frags = malloc(cap * sizeof(*frags));
 	VERIF_ASSUME(frags != NULL);
 	tbl.base.refcount = 1;
 	tbl.table.size = sizeof(sqfs_fragment_t);
-	tbl.table.count = used;
+	tbl.table.count = cap;
 	tbl.table.used = used;
 	tbl.table.data = frags;
 	g_fr_w = verif_nd_size("w");
@@ -132,6 +134,6 @@ void harness(void)
 	if ((super.flags & SQFS_FLAG_UNCOMPRESSED_FRAGMENTS) && g_fr_w < used)
 		VERIF_ASSERT(!SQFS_IS_BLOCK_COMPRESSED(frags[g_fr_w].size),
 			     "C03.frag.table.flags");
-	VERIF_COVER((super.flags & SQFS_FLAG_UNCOMPRESSED_FRAGMENTS) && used > 3);
+	VERIF_COVER((super.flags & SQFS_FLAG_UNCOMPRESSED_FRAGMENTS) && used > 3 && cap > used);
 	VERIF_COVER(!(super.flags & SQFS_FLAG_UNCOMPRESSED_FRAGMENTS) && used > 3);
 }
